@@ -187,12 +187,13 @@ def broadcast_shapes(*args: t.Sequence[int]) -> t.Tuple[int, ...]:
     # our own implementation, with worse error messages
     out_shape: t.List[int] = []
     for ax_lens in zip_longest(*(reversed(arg) for arg in args), fillvalue=1):
-        bcast = max(ax_lens)
-        if not all(ax_len in (1, bcast) for ax_len in ax_lens):
+        # lengths other than 1 must all agree (a zero-length axis broadcasts with 1, not with 2)
+        non_unit = set(ax_len for ax_len in ax_lens if ax_len != 1)
+        if len(non_unit) > 1:
             shapes = [f"'{tuple(arg)!r}'" for arg in args]
             raise ValueError(f"Couldn't broadcast shapes {list_phrase(shapes, 'and')}")
-        out_shape.append(bcast)
-    return tuple(out_shape)
+        out_shape.append(non_unit.pop() if len(non_unit) else 1)
+    return tuple(reversed(out_shape))
 
 
 def is_broadcastable(*args: t.Sequence[int]) -> bool:
